@@ -594,6 +594,35 @@ func c01Cases(r *core.Run, prop string) []XZWCase {
 			}
 		}
 	}
+	// (i) raw-chunk residency boundary: DictCap+BufSize just below / at / above the size of one full
+	// incompressible chunk (64 KiB), with more than two chunks of incompressible input: the writer
+	// may store a chunk raw only while its bytes are still held by the encoder dictionary
+	for _, sum := range []int{64000, 65000, 65536, 65540, 65600, 66000, 66500, 67000, 69632, 70000} {
+		for _, split := range [][2]int{{4096, sum - 4096}, {sum - 8192, 8192}, {sum - 273, 273}} {
+			for _, sh := range [][]Seg{{{K: "R", Seed: 31, N: 140000}, {K: "T", Seed: 31, N: 3000}}, {{K: "R", Seed: 32, N: 200000}}, {{K: "T", Seed: 33, N: 2000}, {K: "R", Seed: 33, N: 135000}, {K: "K", N: 3000}}} {
+				add(XZWCase{Cfg: XZCfg{DictCap: split[0], BufSize: split[1]}, Shape: sh})
+			}
+		}
+	}
+	// the same boundary with the input handed over in two Write calls
+	for _, sum := range []int{65536, 66000, 67192} {
+		for _, split := range [][2]int{{4096, sum - 4096}, {sum - 8192, 8192}} {
+			add(XZWCase{Cfg: XZCfg{DictCap: split[0], BufSize: split[1]}, Shape: []Seg{{K: "R", Seed: 34, N: 140000}, {K: "T", Seed: 34, N: 3000}}, Parts: []int{70000, 70000}})
+			add(XZWCase{Cfg: XZCfg{DictCap: split[0], BufSize: split[1]}, Shape: []Seg{{K: "R", Seed: 35, N: 210000}}, Parts: []int{70000, 1, 69999}})
+		}
+	}
+	// (j) look-ahead buffer larger than the dictionary: a repeat whose only source lies beyond the
+	// dictionary capacity but inside the buffer must not be used (the header declares DictCap)
+	for _, dc := range []int{4096, 4097, 8192, 32768} {
+		for _, bs := range []int{2 * dc, 65536, 1 << 17} {
+			for m := 0; m < 2; m++ {
+				if bs <= dc {
+					continue
+				}
+				add(XZWCase{Cfg: XZCfg{DictCap: dc, BufSize: bs, Matcher: m}, Shape: []Seg{{K: "R", Seed: 36, N: dc + dc/2}, {K: "K", N: dc + dc/2}, {K: "T", Seed: 36, N: 500}}})
+			}
+		}
+	}
 	if prop == "C02" {
 		return cases
 	}
